@@ -40,6 +40,8 @@ func labelMatches
   props C15
   option pure
   ensures same-symbol: lbl == symbol ==> result
+  ensures no-symbol-matches-every-row: symbol == "" ==> result
+  ensures without-subsets-a-different-symbol-does-not-match: symbol != "" && lbl != symbol && subsets == nil ==> !result
 
 func seqOfLabel
   props C15
@@ -213,6 +215,8 @@ func (*Engine).advance
 func (*Engine).step
   props C15
   modifies *
+  count seeds := closure
+  atreturn a-new-match-is-tried-at-this-row-exactly-when-the-row-is-at-or-after-the-skip-point: $seeds == ite(seq >= old(p.nextStart), 1, 0)
   before emitLazy every-run-and-every-successor-and-the-seed-were-looked-at-before-matches-are-emitted: $done1
   before ingestPending every-run-and-every-successor-and-the-seed-were-looked-at-before-matches-are-queued: $done1
   before closure a-new-match-may-start-only-at-or-after-the-skip-point: seq >= p.nextStart
